@@ -32,7 +32,7 @@ func propC10(c *Ctx) {
 func (c *Ctx) ruleC10RulesWithBody() {
 	r := c.R
 	r.Rule("C10-RULES-WITH-BODY", "every call that expands a macro body taken from the macro table (processPasteDirectiveList(m.Children)) is dominated by the collection of the rules of the same body (collectRulesFromDirectives(m.Children)) whose error is returned", 1)
-	walk := c.P.LookupFunc("core", "JApiCore.processPasteDirectiveList")
+	walk := fnObj(c.pasteRoles().walk)
 	collect := c.P.LookupFunc("core", "JApiCore.collectRulesFromDirectives")
 	table := c.macroTableField()
 	if walk == nil || collect == nil || table == nil {
@@ -497,7 +497,7 @@ func (c *Ctx) ruleC10Cycle() {
 	}
 	// R4: pipeline order
 	if cc := c.fn("core", "JApiCore.compileCore"); cc != nil {
-		pp := c.P.LookupFunc("core", "JApiCore.processPaste")
+		pp := fnObj(c.pasteRoles().processPaste)
 		a := callsIn(pk, cc.Decl.Body, root.Obj)
 		b := callsIn(pk, cc.Decl.Body, pp)
 		ok := len(a) == 1 && len(b) == 1 && buildCFG(cc.Decl.Body).dominatedBy(b[0], a[0])
@@ -580,7 +580,7 @@ func (c *Ctx) ruleC10Cycle() {
 func (c *Ctx) ruleC10Undefined() {
 	r := c.R
 	r.Rule("C10-UNDEFINED-REJECTED", "in the expansion, a PASTE with an empty name and a name missing in the macro table both return a non-nil error", 2)
-	f := c.fn("core", "JApiCore.processPasteDirective")
+	f := c.pasteRoles().pasteDirective
 	table := c.macroTableField()
 	if f == nil || table == nil {
 		r.Undecided("C10-UNDEFINED-REJECTED", "anchor", "processPasteDirective or macro table not found", "")
@@ -692,7 +692,7 @@ func (c *Ctx) ruleC10MacroRemoved() {
 	}
 	if cc := c.fn("core", "JApiCore.compileCore"); cc != nil {
 		a := callsIn(pk, cc.Decl.Body, f.Obj)
-		b := callsIn(pk, cc.Decl.Body, c.P.LookupFunc("core", "JApiCore.processPaste"))
+		b := callsIn(pk, cc.Decl.Body, fnObj(c.pasteRoles().processPaste))
 		if len(a) == 1 && len(b) == 1 && buildCFG(cc.Decl.Body).dominatedBy(b[0], a[0]) {
 			r.Ok("C10-MACRO-CONTRIBUTES-NOTHING", "order", "collectMacro dominates processPaste in compileCore", c.pos(cc.Decl.Pos()))
 		} else {
@@ -737,7 +737,7 @@ func (c *Ctx) enumConst(name string) *types.Const {
 func (c *Ctx) ruleC10CopyReset() {
 	r := c.R
 	r.Rule("C10-COPY-RESET", "expansion hands processContext a copy whose Parent and Children are cleared; after the children of a directive with an explicit context were expanded the current context becomes the copy's parent (mirrors ')'); the context is reset to nil exactly once, before the expansion walk", 4)
-	f := c.fn("core", "JApiCore.processDirective")
+	f := c.pasteRoles().perDirective
 	if f == nil {
 		r.Undecided("C10-COPY-RESET", "anchor", "processDirective not found", "")
 		return
@@ -826,7 +826,7 @@ func (c *Ctx) ruleC10CopyReset() {
 		r.Bad("C10-COPY-RESET", "explicit context restore", "after an explicit context the current context is not set to the parent of the expanded copy: a silently closed implicit sibling context can be re-opened, or the context stays inside the parentheses", c.pos(restoreIf.Pos()))
 	default:
 		// must come after the children were expanded
-		list := c.P.LookupFunc("core", "JApiCore.processPasteDirectiveList")
+		list := fnObj(c.pasteRoles().walk)
 		kids := callsIn(pk, f.Decl.Body, list)
 		if len(kids) >= 1 && kids[0].Pos() < restoreIf.Pos() {
 			r.Ok("C10-COPY-RESET", "explicit context restore", "currentContextDirective = <copy>.Parent after the children were expanded", c.pos(restoreIf.Pos()))
@@ -835,7 +835,7 @@ func (c *Ctx) ruleC10CopyReset() {
 		}
 	}
 	// nil reset exactly once, outside loops, in processPaste; no other store of the context field reachable from processPaste
-	pp := c.fn("core", "JApiCore.processPaste")
+	pp := c.pasteRoles().processPaste
 	if pp == nil || curField == nil {
 		r.Undecided("C10-COPY-RESET", "context reset", "processPaste or the context field not found", "")
 		return
@@ -918,4 +918,145 @@ func (c *Ctx) coreField(name string) *types.Var {
 		}
 	}
 	return nil
+}
+
+// pasteRoles finds the functions of the expansion pass by what they do, so that a rename does not lose them:
+//
+//	pasteDirective: looks a name up in the macro table and hands the entry's Children to the walk;
+//	walk:           the function those Children are handed to (iterates a []*Directive);
+//	perDirective:   the function that makes the copy (calls Directive.CopyWoParentAndChildren);
+//	processPaste:   the function that resets the context cursor to nil and starts the walk on the scanned list.
+//
+// The names used on the pinned tree are tried first.
+type pasteRoles struct{ pasteDirective, walk, perDirective, processPaste *Fn }
+
+func (c *Ctx) pasteRoles() *pasteRoles {
+	if c.pasteR != nil {
+		return c.pasteR
+	}
+	pr := &pasteRoles{
+		pasteDirective: c.fn("core", "JApiCore.processPasteDirective"),
+		walk:           c.fn("core", "JApiCore.processPasteDirectiveList"),
+		perDirective:   c.fn("core", "JApiCore.processDirective"),
+		processPaste:   c.fn("core", "JApiCore.processPaste"),
+	}
+	c.pasteR = pr
+	pk := c.P.Pkg("core")
+	table := c.macroTableField()
+	cur := c.coreField("currentContextDirective")
+	if pk == nil {
+		return pr
+	}
+	isDirList := func(t types.Type) bool {
+		sl, ok := t.Underlying().(*types.Slice)
+		return ok && namedType(sl.Elem()) == prog.ModulePath+"/directive.Directive"
+	}
+	for _, f := range c.libFns() {
+		if f.Pkg != pk {
+			continue
+		}
+		// perDirective
+		if pr.perDirective == nil {
+			ast.Inspect(f.Decl.Body, func(n ast.Node) bool {
+				if call, ok := n.(*ast.CallExpr); ok {
+					if cal := callee(pk, call); cal != nil && cal.Name() == "CopyWoParentAndChildren" {
+						pr.perDirective = f
+					}
+				}
+				return true
+			})
+		}
+		// pasteDirective and walk
+		if table != nil && (pr.pasteDirective == nil || pr.walk == nil) {
+			entry := map[string]bool{}
+			ast.Inspect(f.Decl.Body, func(n ast.Node) bool {
+				if as, ok := n.(*ast.AssignStmt); ok && len(as.Rhs) == 1 {
+					if b, _, isIdx := indexOn(pk, as.Rhs[0]); isIdx && fieldSel(pk, b) == table && len(as.Lhs) >= 1 {
+						entry[accessPath(pk, as.Lhs[0])] = true
+					}
+				}
+				return true
+			})
+			if len(entry) > 0 {
+				ast.Inspect(f.Decl.Body, func(n ast.Node) bool {
+					call, ok := n.(*ast.CallExpr)
+					if !ok || len(call.Args) != 1 || !isDirList(pk.TypesInfo.TypeOf(call.Args[0])) {
+						return true
+					}
+					g := c.fnOf(callee(pk, call))
+					if g == nil || g.Pkg != pk {
+						return true
+					}
+					ap := accessPath(pk, call.Args[0])
+					for e := range entry {
+						if strings.HasPrefix(ap, e+".") {
+							// the call that is returned (the expansion), not the collection of rules before it
+							if res := g.Obj.Type().(*types.Signature).Results(); res.Len() == 1 {
+								calledFromG := false
+								ast.Inspect(g.Decl.Body, func(m ast.Node) bool {
+									if rs, isRange := m.(*ast.RangeStmt); isRange && isDirList(pk.TypesInfo.TypeOf(rs.X)) {
+										calledFromG = true
+									}
+									if fs, isFor := m.(*ast.ForStmt); isFor && fs != nil {
+										calledFromG = true
+									}
+									return true
+								})
+								reachesCopy := false
+								for _, h := range c.reachableInPkg(g) {
+									ast.Inspect(h.Decl.Body, func(m ast.Node) bool {
+										if cc, isCall := m.(*ast.CallExpr); isCall {
+											if cal := callee(pk, cc); cal != nil && cal.Name() == "CopyWoParentAndChildren" {
+												reachesCopy = true
+											}
+										}
+										return true
+									})
+								}
+								if calledFromG && reachesCopy {
+									if pr.pasteDirective == nil {
+										pr.pasteDirective = f
+									}
+									if pr.walk == nil {
+										pr.walk = g
+									}
+								}
+							}
+						}
+					}
+					return true
+				})
+			}
+		}
+	}
+	// processPaste: assigns nil to the cursor and calls the walk
+	if pr.processPaste == nil && cur != nil && pr.walk != nil {
+		for _, f := range c.libFns() {
+			if f.Pkg != pk {
+				continue
+			}
+			resets := false
+			ast.Inspect(f.Decl.Body, func(n ast.Node) bool {
+				if as, ok := n.(*ast.AssignStmt); ok {
+					for i, l := range as.Lhs {
+						if fieldSel(pk, l) == cur && i < len(as.Rhs) && isNil(pk, as.Rhs[i]) {
+							resets = true
+						}
+					}
+				}
+				return true
+			})
+			if resets && len(callsIn(pk, f.Decl.Body, pr.walk.Obj)) > 0 {
+				pr.processPaste = f
+			}
+		}
+	}
+	return pr
+}
+
+func fnObj(f *Fn) *types.Func {
+	if f == nil {
+		return nil
+	}
+	return f.Obj
 }
